@@ -67,6 +67,7 @@ def run(rep, tier):
         rewind(rep, c, sfx)
         rule_tokens(rep, c, sfx)
         nomove(rep, c, sfx)
+        scratch(rep, c, sfx)
         boundary(rep, c, sfx)
         if cfg != "nomemchr":
             skiparms(rep, c, sfx)
@@ -480,6 +481,46 @@ def nomove(rep, c, sfx):
         if nfalse == 0:
             # value not literal: be conservative, require that no write happens before a non-literal return
             r.note("%s: no literal-false path" % fn["path"])
+
+
+# ------------------------------------------------------------------ SCRATCH
+
+def scratch(rep, c, sfx):
+    r = rep.rule("C03.SCRATCH" + sfx, 2,
+                 "multi-step matchers of ParserState (a Position matcher called inside a loop or an iterator "
+                 "closure) work on a scratch copy of the position and commit it on success; only single-shot "
+                 "primitives may call a matcher on the state's own position")
+    movers = set(b["path"] for b in c.bodies if b.get("impl_self") == POSITION and b.get("output") == "bool"
+                 and b["inputs"] and b["inputs"][0].startswith("&mut "))
+    for fn in ps_fns(c):
+        if closure_param_ids(fn) or fn.get("exp"):
+            continue
+        ctx = hirq.Ctx(fn)
+        multi = False
+        for n in walk(fn["body"]):
+            if kind(n) == "MethodCall" and n.get("path") in movers:
+                inside = [p for (p, k, i) in ctx.ancestors(n) if kind(p) in ("Loop", "Closure")]
+                if not inside:
+                    continue
+                multi = True
+                recv = peel(n["recv"])
+                on_state = kind(recv) == "Field" and recv["name"] == "position" and "ParserState" in recv.get("bty", "")
+                key = "%s:%s" % (fn["path"].split("::")[-1], n["m"])
+                r.instance(key, where(n), "receiver %s" % hirq.expr_text(n["recv"]))
+                if on_state:
+                    r.violation(key, where(n),
+                                "%s calls %s on the state's own position inside a loop/iterator: when a later step "
+                                "fails the earlier steps stay consumed, so the primitive moves on failure "
+                                "(restore_on_err only restores the stack)" % (fn["name"], n["m"]))
+        if multi:
+            # the scratch copy must be committed only on the success path
+            commits = [n for n in walk(fn["body"]) if kind(n) == "Assign" and hirq.field_write_target(n)
+                       and hirq.field_write_target(n)[1] == "position"]
+            for a in commits:
+                gs = ctx.guards(a)
+                if not any(g[0] == "if" and g[2] is True for g in gs):
+                    r.violation("%s:commit" % fn["path"].split("::")[-1], where(a), "the scratch position is "
+                                "committed unconditionally")
 
 
 # ------------------------------------------------------------------ SKIPARMS
